@@ -310,7 +310,10 @@ class BanditManager:
             nosec_lines = dict()
             try:
                 fdata.seek(0)
-                tokens = tokenize.tokenize(fdata.readline)
+                # number the comment lines as ast.parse numbers the code: like
+                # the interpreter it also takes a lone CR as a line end
+                lf_only = io.BytesIO(re.sub(rb"\r\n?", b"\n", data))
+                tokens = tokenize.tokenize(lf_only.readline)
 
                 if not self.ignore_nosec:
                     for toktype, tokval, (lineno, _), _, _ in tokens:
